@@ -138,6 +138,10 @@ SAFE_BUILTINS: dict[str, Callable] = {
     "accumulate": lambda it, *a: list(__import__("itertools").accumulate(it, *a)),
     "bisect_right": __import__("bisect").bisect_right, "bisect_left": __import__("bisect").bisect_left, "bisect": __import__("bisect").bisect, 
     "enumerate": lambda x, start=0: list(enumerate(x, start)), "zip": lambda *a, strict=False: list(zip(*a, strict=strict)), "sum": sum,
+    "combinations": lambda it, r: list(__import__("itertools").combinations(list(it), r)),
+    "permutations": lambda it, r=None: list(__import__("itertools").permutations(list(it), r)),
+    "product": lambda *its, repeat=1: list(__import__("itertools").product(*[list(i) for i in its], repeat=repeat)),
+    "pairwise": lambda it: list(__import__("itertools").pairwise(list(it))),
     "repeat": lambda x, n: [x] * n,  # itertools.repeat with a count
     "chain": _chain,  # itertools.chain (and chain.from_iterable)
     "nullcontext": lambda value=None: NullCtx(value),  # contextlib.nullcontext
@@ -390,6 +394,23 @@ class Ev:
                             return False
                         left = right
                         continue
+                if isinstance(op, (ast.Eq, ast.NotEq)) and any(isinstance(x, Obj) and "_fields" in x.__dict__ for x in (left, right)):
+                    # NamedTuple records compare as the tuples of their fields (with each other and with plain tuples)
+                    def as_tuple(x: Any) -> Any:
+                        return tuple(x.__dict__[f_] for f_ in x.__dict__["_fields"]) if isinstance(x, Obj) and "_fields" in x.__dict__ else x
+
+                    same = as_tuple(left) == as_tuple(right)
+                    if same != isinstance(op, ast.Eq):
+                        return False
+                    left = right
+                    continue
+                if isinstance(op, (ast.Is, ast.IsNot)) and isinstance(left, Sym) and isinstance(right, Sym):
+                    # enum members are singletons: `x is Kind.A` is identity of the *member*, which the model names
+                    same = left == right
+                    if same != isinstance(op, ast.Is):
+                        return False
+                    left = right
+                    continue
                 try:
                     if not f(left, right):
                         return False
@@ -588,6 +609,11 @@ class Ev:
                 for e in (spec.elts if isinstance(spec, ast.Tuple) else [spec]):
                     text = ast.unparse(e)
                     val = self.env.get(e.id, _MISSING) if isinstance(e, ast.Name) else _MISSING
+                    if isinstance(e, (ast.Attribute, ast.Subscript)) and isinstance(e.value, ast.Name) and isinstance(self.env.get(e.value.id), (Obj, dict, list, tuple)):
+                        # a class held in a field or a table entry (operator.node, TABLE[kind]): the value names it
+                        val = self.ev(e)
+                        if getattr(val, "_sa_class", None) is None and not (isinstance(val, tuple) and all(getattr(x, "_sa_class", None) for x in val)):
+                            raise self.bad(n, "isinstance against a value the model cannot name as a class")
                     cls_of = getattr(val, "_sa_class", None)
                     if cls_of is not None:
                         names.append(cls_of)  # a class of the program model, possibly through a variable (cls = TABLE[kind])
@@ -739,6 +765,13 @@ class Ev:
                     m = self.methods.get((k, f.attr))
                     if m is not None:
                         return m(recv, *args, **kwargs)
+                if f.attr == "_replace" and "_fields" in recv.__dict__ and not args and all(k in recv.__dict__["_fields"] for k in kwargs):
+                    new = Obj(recv.kinds)  # a NamedTuple record with some fields replaced: a new record
+                    new.__dict__.update({k: v for k, v in recv.__dict__.items() if k != "kinds"})
+                    new.__dict__.update(kwargs)
+                    return new
+                if f.attr == "_asdict" and "_fields" in recv.__dict__ and not args and not kwargs:
+                    return {k: recv.__dict__[k] for k in recv.__dict__["_fields"]}
                 raise self.bad(n, f"no abstract method {f.attr} for {recv.kinds}")
             if kwargs and isinstance(recv, str) and f.attr in ("splitlines", "split", "rsplit", "find", "rfind", "count", "startswith", "endswith", "strip", "lstrip", "rstrip", "replace"):
                 return getattr(recv, f.attr)(*args, **kwargs)
